@@ -166,7 +166,7 @@ def run(ctx):
     k = ctx.pick(2, 3)
     maxn = MAXN[ctx.tier]
     _CFG['maxn'] = maxn
-    starts = ctx.rotate(rules.STARTS[:6], 3) + [rules.STARTS[6]] if not ctx.thorough else rules.STARTS
+    starts = ctx.rotate(rules.STARTS[:6], 2) + rules.STARTS[6:] if not ctx.thorough else rules.STARTS
     freqs = list(range(7))
     cs = list(gen_cases(k, freqs, starts))
     ctx.explore('shapes-k<=%d' % k, cs, 'eval_case', chunk=24, setup_arg={'maxn': maxn}, space_size=len(cs))
